@@ -452,6 +452,39 @@ func scenarios() []*Scenario {
 			return "converged " + own
 		},
 	})
+	// (6d) a payload that is OLDER than what the node writes at the same time (a late gossip message, a full-state exchange
+	// with a lagging peer) on the very keys being written: whatever the merge found when it started, the local writes are
+	// newer and must be what the node keeps, and what a node fed with the same payload and its broadcasts keeps
+	olderBatch := func() []byte {
+		ev := &api.StateBroadcastEvent{
+			RetainedMessages: []*api.RetainedMessage{{Publish: &packet.Publish{Header: &packet.Header{}, Topic: []byte("m/t"), Payload: []byte("old")}, LastAdded: 900_000}},
+			Subscriptions:    []*api.Subscription{{SessionID: "s1", Pattern: []byte("m/a"), Peer: 1, QoS: 0, LastAdded: 899_000, LastDeleted: 900_000}},
+			SessionMetadatas: []*api.SessionMetadatas{{SessionID: "s1", ClientID: "c1", Peer: 1, MountPoint: "m", LastAdded: 899_000, LastDeleted: 900_000}},
+		}
+		b, _ := proto.Marshal(ev)
+		return b
+	}()
+	out = append(out, &Scenario{
+		Name: "distributed: topics.Set(m/t,x) || MergeRemoteState(older: m/t=old, removal of s1 and of s1|m/a);Get(m/t) || subs.Create(s1,m/a);sessions.Create(s1)",
+		New:  func() any { clockTick.Store(0); return newDsys() },
+		Threads: [][]Op{
+			{{"Set(m/t,x)", func(s any) string {
+				return errs(s.(*dsys).st.Topics().Set(&packet.Publish{Header: &packet.Header{}, Topic: []byte("m/t"), Payload: []byte("x")}))
+			}}},
+			{{"Merge(older)", func(s any) string { s.(*dsys).st.Distributor().MergeRemoteState(olderBatch, false); return "" }},
+				{"Get(m/t)", func(s any) string { return s.(*dsys).lookup("m/t") }}},
+			{{"Create(s1,m/a)", func(s any) string { return errs(s.(*dsys).st.Subscriptions().Create("s1", []byte("m/a"), 0)) }},
+				{"Create(s1)", func(s any) string { return errs(s.(*dsys).st.SessionMetadatas().Create("s1", "c1", 1, nil, "m")) }}},
+		},
+		Observe: func(s any) string {
+			d := s.(*dsys)
+			own := d.view() + " retained[" + d.retained() + "]"
+			if mirror := d.mirrorView(olderBatch); mirror != own {
+				return "DIVERGED origin " + own + " vs node fed with the same payload and its broadcasts " + mirror
+			}
+			return "converged " + own
+		},
+	})
 	// (3d) retained-message lookups (new subscribers) reaching below a stored leaf and into an empty branch, while a
 	// publisher stores another retained message
 	out = append(out, &Scenario{
